@@ -52,6 +52,10 @@ class Evidence:
         c['skipped_cases'] = st['skipped']
         c['harness_errors'] = len(st['harness_errors'])
         c['slowest_case_s'] = round(st['slowest'], 3)
+        c['runtime_contract_checks'] = {'functions_monitored': sorted(st.get('monitored', {})),
+                                        'max_calls_seen_by_one_worker': st.get('monitored', {}),
+                                        'calls_outside_a_contract_precondition': st.get('pre_miss', 0),
+                                        'precondition_misses': st.get('pre_miss_detail', [])}
         self.data['assumptions'] += list(getattr(mod, 'ASSUMPTIONS', []))
         self.explain.append(
             'BOUNDED STAND-IN (run-time contracts on the real code, never counted as proved): %d cases, '
